@@ -5,7 +5,9 @@
   * the witness tests of the property's recorded findings on /repo: a fixed finding must pass,
     an open finding must still fail (canary).
 The results are merged into evidence/<id>.json (coverage.selftest, coverage.witnesses).
-Exit 0 = fine, 2 = the check machinery is broken (never a VIOLATION by itself)."""
+  * bounded stand-ins (TestVerifBounded<Cxx>… under witness/): exhaustive tests up to a stated bound for functions no
+    contract reaches (regexp semantics); labelled bounded in the evidence, a failure is a VIOLATION with the failing input.
+Exit 0 = fine, 1 = a bounded stand-in failed, 2 = the check machinery is broken."""
 import json, os, subprocess, sys, re
 V = "/verif"
 prop = sys.argv[1]
@@ -47,12 +49,27 @@ for mp in sorted(glob.glob(f"{V}/seeded/{prop}_seed*/meta.json")):
     scen.append({"seed": os.path.basename(d), "passed_on_current_tree": passed})
     if not passed:
         print(f"NOTE: scenario test of {os.path.basename(d)} fails on the current tree", file=sys.stderr)
+# bounded stand-ins (labelled bounded, never counted as proved): tests TestVerifBounded<Cxx>… under witness/
+bounded = []
+for wf in sorted(glob.glob(f"{V}/witness/*_test.go")):
+    src = open(wf).read()
+    for tn in re.findall(r"func (TestVerifBounded" + prop + r"\w*)\(", src):
+        p = subprocess.run([f"{V}/tools/witness.sh", "/repo", ".", "^" + tn + "$", wf], capture_output=True, text=True, errors="replace")
+        passed = p.returncode == 0 and "ok" in p.stdout
+        bounded.append({"test": tn, "file": os.path.relpath(wf, V), "passed": passed, "level": "bounded (not a proof)"})
+        if not passed:
+            os.makedirs(f"{V}/replays", exist_ok=True)
+            rp = f"{V}/replays/{prop}-bounded-{tn}.json"
+            json.dump({"property": prop, "kind": "bounded", "obligation": tn, "replay": f"tools/witness.sh /repo . '^{tn}$' {os.path.relpath(wf, V)}", "output": (p.stdout + p.stderr)[-3000:]}, open(rp, "w"), indent=1)
+            print(f"VIOLATION property={prop} replay={rp}")
+            rc = 1
 evp = f"{V}/evidence/{prop}.json"
 if os.path.exists(evp):
     ev = json.load(open(evp))
     ev["coverage"]["selftest"] = st
     ev["coverage"]["witnesses"] = wit
     ev["coverage"]["seed_scenarios"] = scen
+    ev["coverage"]["bounded"] = bounded
     json.dump(ev, open(evp, "w"), indent=1)
 print(f"{prop} thorough extras: selftest {st['ok']}/{st['patches']} ok, witnesses {sum(1 for w in wit if w['as_expected'])}/{len(wit)} as expected, seed scenarios {sum(1 for x in scen if x['passed_on_current_tree'])}/{len(scen)} pass")
 sys.exit(rc)
